@@ -192,6 +192,59 @@ func (l *limitWriter) Write(b []byte) (int, error) {
 	return n, nil
 }
 
+// statementCoverage summarises the coverage counters the children wrote (thorough tier: the binary is built with
+// -cover -coverpkg=<poly packages>): per poly source file that was reached, statements and statements executed.
+func statementCoverage(dir string) map[string]any {
+	prof := filepath.Join(dir, "profile.txt")
+	if out, err := exec.Command("go", "tool", "covdata", "textfmt", "-i="+dir, "-o="+prof).CombinedOutput(); err != nil {
+		return map[string]any{"error": strings.TrimSpace(string(out))}
+	}
+	f, err := os.Open(prof)
+	if err != nil {
+		return nil
+	}
+	defer f.Close()
+	type fc struct{ stmts, covered int }
+	files := map[string]*fc{}
+	sc := bufio.NewScanner(f)
+	sc.Buffer(make([]byte, 1<<20), 1<<20)
+	for sc.Scan() {
+		ln := sc.Text()
+		if !strings.HasPrefix(ln, "github.com/TimothyStiles/poly/") {
+			continue
+		}
+		i := strings.Index(ln, ".go:")
+		if i < 0 {
+			continue
+		}
+		name := strings.TrimPrefix(ln[:i+3], "github.com/TimothyStiles/poly/")
+		var n, c int
+		fields := strings.Fields(ln[i+4:])
+		if len(fields) != 3 {
+			continue
+		}
+		fmt.Sscan(fields[1], &n)
+		fmt.Sscan(fields[2], &c)
+		e := files[name]
+		if e == nil {
+			e = &fc{}
+			files[name] = e
+		}
+		e.stmts += n
+		if c > 0 {
+			e.covered += n
+		}
+	}
+	out := map[string]any{}
+	for name, e := range files {
+		if e.covered == 0 {
+			continue
+		}
+		out[name] = map[string]any{"statements": e.stmts, "executed": e.covered, "percent": float64(e.covered*1000/e.stmts) / 10}
+	}
+	return out
+}
+
 func clipStr(s string, n int) string {
 	if len(s) > n {
 		return s[:n] + "..."
@@ -512,6 +565,11 @@ func Check(p *Prop, o Options) int {
 		for k, v := range extra {
 			cov[k] = v
 		}
+		if os.Getenv("VERIF_COVER") != "" {
+			if sc := statementCoverage(filepath.Join(work, "cov")); sc != nil {
+				cov["statement_coverage_of_poly_files_reached"] = sc
+			}
+		}
 		kf := map[string]int64{}
 		for k, v := range knownCount {
 			kf[k] = v
@@ -582,6 +640,10 @@ func runChild(p *Prop, o Options, work string, shard, nshards, wdSec int) childR
 	cmd.Env = append(os.Environ(),
 		"GORACE=halt_on_error=0 history_size=5 log_path="+filepath.Join(work, fmt.Sprintf("race-%d", shard)),
 		"GOTRACEBACK=all")
+	if os.Getenv("VERIF_COVER") != "" {
+		os.MkdirAll(filepath.Join(work, "cov"), 0755)
+		cmd.Env = append(cmd.Env, "GOCOVERDIR="+filepath.Join(work, "cov"))
+	}
 	cmd.SysProcAttr = &syscall.SysProcAttr{Setpgid: true}
 	if err := cmd.Start(); err != nil {
 		res.exitErr = "cannot start child: " + err.Error()
